@@ -661,6 +661,9 @@ func (sw *SessionWindow) Reset() {
 	sw.triggeredSessions = make(map[string]*sessionInfo)
 	sw.initialized = false
 	sw.initChan = make(chan struct{})
+
+	// Recreate context for next startup
+	sw.ctx, sw.cancelFunc = context.WithCancel(context.Background())
 }
 
 // OutputChan returns a read-only channel for receiving data when window triggers
